@@ -232,6 +232,10 @@ func c19Run(t *tr.Writer, id int, c c19Case) {
 		c19HeartBeat(t, c)
 		return
 	}
+	if c.Mode == "prosumer" {
+		c19Prosumer(t, c)
+		return
+	}
 	e := newC19Env(t, time.Duration(c.TimeoutMs)*time.Millisecond)
 	defer e.close()
 	switch c.Mode {
@@ -494,6 +498,17 @@ func runC19(a Args) tr.Summary {
 		}()
 	}
 	wg.Wait()
+	// Prosumer end to end
+	for _, kind := range []string{"tcp", "mock"} {
+		for r := 0; r < 2; r++ {
+			id++
+			nontrivial++
+			c := c19Case{Mode: "prosumer", Kind: kind, TimeoutMs: 30, Pubs: 1 + r, N: 40, Seed: a.Seed*733 + int64(id)}
+			sub := tr.New(fmt.Sprintf("%s.real%d", a.Out, id))
+			c19Run(sub, id, c)
+			sub.Close()
+		}
+	}
 	// heart beat scenarios (real time: the heart beat is 400 ms, the client polls within 40 ms)
 	for _, kind := range []string{"tcp", "mock"} {
 		for _, sc := range []string{"pubclose", "direct", "lapse"} {
@@ -581,4 +596,72 @@ func c19HeartBeat(t *tr.Writer, c c19Case) {
 	}
 	time.Sleep(hb / 10)
 	e.drain("a")
+}
+
+// Prosumer end to end: a real Prosumer subscribes with callbacks; publishers publish; what the
+// callbacks see is the delivery (one pollE per callback, in the order the callbacks are entered).
+// Some callbacks are slow (seeded), so that the next batch arrives while the previous one is still
+// being handed to the application.
+func c19Prosumer(t *tr.Writer, c c19Case) {
+	e := newC19EnvOn(t, c.Kind, time.Duration(c.TimeoutMs)*time.Millisecond, 0)
+	defer e.close()
+	rng := tr.NewRng(c.Seed)
+	slow := map[int]bool{}
+	for m := 1; m <= c.N*c.Pubs+4; m++ {
+		slow[m] = rng.Intn(3) == 0
+	}
+	url := ""
+	for _, cl := range e.clients {
+		url = cl.URLs[0].String()
+		break
+	}
+	pc := core.NewClient(url)
+	defer pc.Abort()
+	ps := push.NewProsumer(pc, "a")
+	ps.RetryInterval = 5 * time.Millisecond
+	var seen int64
+	for _, topic := range c19Topics {
+		topic := topic
+		ok, err := ps.Subscribe(topic, func(data interface{}, from string) {
+			m := c19Int(data)
+			t.Emit(tr.Rec{"ev": "pollE", "id": "a", "res": tr.Rec{topic: []int{m}}})
+			atomic.AddInt64(&seen, 1)
+			if slow[m] {
+				time.Sleep(1500 * time.Microsecond)
+			}
+		})
+		if err != nil {
+			t.Emit(tr.Rec{"ev": "subErr", "err": err.Error()})
+			return
+		}
+		t.Emit(tr.Rec{"ev": "sub", "id": "a", "topic": topic, "ok": ok})
+	}
+	time.Sleep(10 * time.Millisecond)
+	var wg sync.WaitGroup
+	var accepted int64
+	for p := 0; p < c.Pubs; p++ {
+		wg.Add(1)
+		go func(p int) {
+			defer wg.Done()
+			prng := tr.NewRng(c.Seed*31 + int64(p))
+			from := fmt.Sprintf("p%d", p+1)
+			for i := 0; i < c.N; i++ {
+				before := atomic.LoadInt64(&e.m)
+				e.publish(from, c19Op{Op: "uni", Topic: c19Topics[prng.Intn(2)], ID: "a"})
+				_ = before
+				atomic.AddInt64(&accepted, 1)
+				time.Sleep(time.Duration(prng.Intn(900)) * time.Microsecond)
+			}
+		}(p)
+	}
+	wg.Wait()
+	// everything published has been accepted (the client is subscribed): wait for the callbacks
+	for i := 0; i < 600 && atomic.LoadInt64(&seen) < atomic.LoadInt64(&accepted); i++ {
+		time.Sleep(5 * time.Millisecond)
+	}
+	time.Sleep(20 * time.Millisecond)
+	t.Emit(tr.Rec{"ev": "drain", "id": "a", "topics": c19Topics})
+	for _, topic := range c19Topics {
+		ps.Unsubscribe(topic)
+	}
 }
